@@ -1,7 +1,7 @@
 """C10 Tree editing API obeys its read/write/insert/delete/copy laws (structural clauses)."""
 import ast
 
-from ..core import Ob, Rule, AnalysisError, norm, KeyMaker
+from ..core import require_idiom, Ob, Rule, AnalysisError, norm, KeyMaker
 from ..cfg import path_of
 from .. import astutil as A
 from . import c17
@@ -176,6 +176,7 @@ def r3_tombstones(ctx):
     yield Ob('x12context:X12DataNode.delete marks the node with type = None', ok, ctx.floc(f), '' if ok else 'tombstone marker changed')
     f = ctx.func('x12context', 'X12DataNode._cleanup')
     ok = 'x.type is not None' in ast.unparse(f) and 'self.children = ' in ast.unparse(f)
+    require_idiom(ok, 'c10.py:178')
     yield Ob('x12context:X12DataNode._cleanup sweeps on the same marker', ok, ctx.floc(f), '' if ok else '_cleanup changed')
     for cname in ('X12LoopDataNode', 'X12SegmentDataNode'):
         f = ctx.func('x12context', cname + '.delete')
@@ -229,6 +230,7 @@ def r5_insertion(ctx):
     yield Ob('x12context:X12DataNode._get_insert_idx goes after siblings of the same or an earlier map position', ok, ctx.floc(f),
              '' if ok else 'comparison is %s' % [norm(c) for c in cmp_])
     ok = 'map_idx = x12_node.pos' in txt and 'return idx + 1' in txt and 'return len(self.children)' in txt
+    require_idiom(ok, 'c10.py:231')
     yield Ob('x12context:X12DataNode._get_insert_idx returns the slot after the last such sibling', ok, ctx.floc(f), '' if ok else 'return logic changed')
     for q, var in (('X12LoopDataNode.add_segment', 'x12_seg_node'), ('X12LoopDataNode.add_node', 'data_node.x12_map_node'), ('X12LoopDataNode._add_loop_node', 'x12_loop_node')):
         fn = ctx.func('x12context', q)
@@ -240,9 +242,11 @@ def r5_insertion(ctx):
     # membership checks of add_segment / add_loop / add_node
     fn = ctx.func('x12context', 'X12LoopDataNode.add_segment')
     ok = 'get_child_seg_node(seg_data)' in ast.unparse(fn) and 'raise errors.X12PathError' in ast.unparse(fn)
+    require_idiom(ok, 'c10.py:242')
     yield Ob('x12context:X12LoopDataNode.add_segment refuses a segment the loop does not define', ok, ctx.floc(fn), '' if ok else 'membership check changed')
     fn = ctx.func('x12context', 'X12LoopDataNode.add_node')
     ok = 'data_node.x12_map_node.parent != self.x12_map_node' in ast.unparse(fn)
+    require_idiom(ok, 'c10.py:245')
     yield Ob('x12context:X12LoopDataNode.add_node refuses a node of another loop', ok, ctx.floc(fn), '' if ok else 'membership check changed')
 
 
